@@ -163,33 +163,36 @@ Theorem C10_rebuild_same_verdicts_partial : forall S F r,
   exists R, rebuild (map_defaults dflt_text r) = Some R /\ canon R = canon (erase S F).
 Proof. exact rebuild_same_for_validation. Qed.
 
-(** ... and therefore answers every schema lookup of the validator the way the visible part of the
-    original does.  The lookups are C13's ([FM.ask], coq/Feat/FeaturesModel.v: root types, type by
+(** ... and therefore answers every schema lookup of the validator the way the original does for
+    the request.  The lookups are C13's ([FM.ask], coq/Feat/FeaturesModel.v: root types, type by
     name, kind, GetField, possible types, enum values, input fields, directive by name — the
-    validator's view [FM.in_view_validator]); [to_feat] abstracts a C10 definition to a C13 schema;
-    [ans_eq] compares answers as finite maps / sets (what comes out of a Go map has no order) and
-    without the feature annotations and resolver tag a rebuilt definition cannot carry.  Any
-    feature sets [G], [G']: neither definition has anything gated left.
-
-    FULL STATEMENT, proved only in part:
-      ... ans_eq (FM.ask FM.fixed (to_feat R) G q) (FM.ask FM.fixed (to_feat (registered S)) F q)
-      for every q of the validator's view whose type pointers the request may hold; with
-      C13_noninterference: every consumer that sees the schema only through these lookups and does
-      not depend on map order computes the same on R and on (S, F) — same verdicts.
-    Missing: (a) [to_feat (erase S F)] is C13's [FS.erase (to_feat (registered S)) F] up to [fsim]
-    (C13 keeps the feature annotations and the registry order, C10's erase strips and sorts; the
-    relation [fsim] and [ask_sim] below are built for exactly this step, the lemma itself is not
-    proved), after which [C13_view_erase_eq] closes the chain; (b) the validator itself (C04).
-    Both remain covered by validating generated documents on both real schemas. *)
-Theorem C10_rebuild_same_lookups_partial : forall S F r,
+    validator's view [FM.in_view_validator]); [to_feat] abstracts a C10 definition to a C13 schema,
+    [registered S] is [S] with the types schema.New registers; [ans_eq] compares answers as finite
+    maps / sets (what comes out of a Go map has no order) and without the feature annotations and
+    the resolver tag, which a rebuilt definition cannot carry.  The rebuilt definition is asked
+    with ANY feature set [G] (nothing in it is gated), the original with the request's [F].
+    Premise on [q] as in C13: the type pointers a lookup is applied to are ones the request may
+    hold.  Additional hypotheses: type names are unique (Go pointers / schema.New) and
+    [FM.schema_ok] — C13's transcription of schema.New's acceptance checks — holds of the
+    definition (both true of every schema value).
+    Chain of the proof: [C13_view_erase_eq] (asking (S, F) = asking C13's erased schema), then
+    [erase_fsim] (C13's erased schema is C10's [erase S F] up to [fsim]), [fsim_of_canon] with the
+    previous theorem, and [ask_sim].
+    With C13_noninterference in mind: a consumer that sees the schema only through these lookups
+    and does not depend on map order computes the same on R and on (S, F).  What stays outside:
+    the validator itself (C04's model), the presence of argument defaults (not part of C13's
+    lookups; it is part of [canon], previous theorem), the executor's and introspection's views. *)
+Theorem C10_rebuild_same_lookups : forall S F r,
   depth_ok S = true -> interfaces_declared_once S = true -> locations_known S = true ->
   refs_defined S = true -> gating_nested S = true -> roots_visible S F = true ->
   builtins_consistent S = true -> kinds_ok S = true -> scalars_accept_all S = true -> defaults_denote S ->
+  NoDup (map fst (types S)) -> FM.schema_ok (to_feat (registered S)) = true ->
   introspect (print_default S) S F = IntroOk r ->
   exists R, rebuild (map_defaults dflt_text r) = Some R /\
-    forall G G' q, FM.in_view_validator q = true ->
-      ans_eq (FM.ask FM.fixed (to_feat R) G q) (FM.ask FM.fixed (to_feat (erase S F)) G' q).
-Proof. exact rebuild_same_lookups. Qed.
+    forall G q, FM.in_view_validator q = true ->
+      (forall h, In h (FM.handle_args q) -> FS.visible (to_feat (registered S)) F h = true) ->
+      ans_eq (FM.ask FM.fixed (to_feat R) G q) (FM.ask FM.fixed (to_feat (registered S)) F q).
+Proof. exact rebuild_same_lookups_full. Qed.
 
 (** two C13 schemas that are the same up to map order and feature annotations ([fsim]) answer
     every lookup of the validator's view alike for requests that see everything in them *)
@@ -244,7 +247,7 @@ Print Assumptions C10_introspect_refs_resolve.
 Print Assumptions C10_default_roundtrip_partial.
 Print Assumptions C10_default_astral_refuted.
 Print Assumptions C10_rebuild_same_verdicts_partial.
-Print Assumptions C10_rebuild_same_lookups_partial.
+Print Assumptions C10_rebuild_same_lookups.
 Print Assumptions C10_similar_schemas_answer_alike.
 Print Assumptions C10_rebuild_picky_scalar_refuted.
 Print Assumptions C10_clone_same_definition.
